@@ -307,6 +307,11 @@ impl Stmt {
         }
     }
 
+    /// IF clauses and remarks extend to the end of the line.
+    pub fn must_end_line(&self) -> bool {
+        self.is_if() || matches!(self, Stmt::Rem(_))
+    }
+
     pub fn is_if(&self) -> bool {
         matches!(self, Stmt::If(..) | Stmt::IfGoto(..))
     }
